@@ -306,6 +306,10 @@ def _classify_divergence(room, peers, rights):
         for t in allrec:
             twins = [u for u in allrec if u[0] == t[0] and u != t and day_of(u[4]) == day_of(t[4])]
             if twins and any(t not in s and any(u in s for u in twins) for s in tombs):
+                # same MILLISECOND: the two records have the same primary key (room, deletion date, id, entity) in
+                # _node_deletion_log, each peer keeps the one it stored last — not the defect repaired by /repo a395f05
+                if any(u[4] == t[4] for u in twins):
+                    return "same-millisecond-deletion-records-collide"
                 return "two-deletion-records-of-one-row-one-day"
         return "deletion-records-differ-after-quiescence"
     rows = [{n[0]: n for n in c[0]} for c in contents]
@@ -432,11 +436,18 @@ def c11_oracle(ops, outs):
                                    for r in peers for u in r.ntombs if u["sig"] != t["sig"])
                         n = p.nodes.get(t["id"])
                         sp, sq = _summary(p, t["room"]), _summary(q, t["room"])
-                        if twin:
-                            sig = "deletion-record-missing-after-quiescence"
+                        twin_ms = any(u is not t and u["id"] == t["id"] and u["ddate"] == t["ddate"]
+                                      for r in peers for u in r.ntombs if u["sig"] != t["sig"])
+                        if twin_ms:
+                            # same millisecond: one primary key in _node_deletion_log for the two records
+                            sig = "same-millisecond-deletion-records-collide"
                         elif sp is not None and sp == sq and sp[2] != "-":
-                            # the two room summaries (first entity of the last day) agree: nothing is compared (C03)
+                            # the two room summaries (first entity of the last day) agree: nothing is compared (C03).
+                            # Judged BEFORE the twin-record cause: since /repo a395f05 two records of one row in one answer are
+                            # both applied, a record that is still missing when the summaries agree was never asked for
                             sig = "deletion-missing-room-summaries-equal"
+                        elif twin:
+                            sig = "deletion-record-missing-after-quiescence"
                         elif n is not None and n["author"] != t["author"] and not _all_rows_at(ops[0], t["author"], t["ddate"]):
                             # the peer holds a version by somebody else: the deleter is asked for the all-rows right (#19)
                             sig = "deletion-refused-local-version-by-other-author"
